@@ -75,6 +75,8 @@ var provTemplates = []struct {
 	{"var-add", "var t = %s\nt + t", true}, {"var-mul", "var t = %s\nt * 2", true}, {"var-sub", "var t = %s\n1 - t", true}, {"var-concat", "var t = %s\n\"s\" + t", true},
 	{"multi-add", "t, u = func() { return %s, 1 }()\nt + t", true}, {"multi-mul", "t, u = [%s, 1]\nt * 2", true}, {"multi-var-add", "var t, u = [%s, 1]\nt + t", true},
 	{"forin-map-add", "for k, t in {\"k\": %s} { probe(t + t); probe(t * 2) }", false},
+	{"go-pointer-param-write", "setp(%s, 5)\n[*vptr, readp(vptr)]", false}, {"go-pointer-param-read", "*vptr = 8\nreadp(%s)", false},
+	{"go-pointer-param-twice", "setp(%s, 5)\nsetp(%s, 6)", false},
 	{"forin-list-add", "for t in [%s] { probe(t + t); probe(t * 2); probe(t - 1) }", true},
 }
 
@@ -106,6 +108,9 @@ func streamProv(o *Out, r *rand.Rand, n int, thorough bool) {
 			for k, v := range provValues() {
 				_ = e.Define(k, v)
 			}
+			// Go functions with pointer parameters: they act on the value the pointer the script holds points to
+			_ = e.Define("setp", func(p *int64, v int64) int64 { old := *p; *p = v; return old })
+			_ = e.Define("readp", func(p *int64) int64 { return *p })
 		})
 		return res, true
 	}
@@ -143,7 +148,7 @@ func streamProv(o *Out, r *rand.Rand, n int, thorough bool) {
 			if strings.HasPrefix(vn, "vbig") && (strings.HasPrefix(t.name, "make-") || t.name == "mul" || t.name == "shift") {
 				continue // astronomically large allocations are outside the guarantee (resource class)
 			}
-			baseSrc := prelude + fmt.Sprintf(t.src, vn)
+			baseSrc := prelude + fillTemplate(t.src, vn)
 			base, ok := run(baseSrc)
 			if !ok {
 				o.Fail(Failure{Oracle: "prov-template-parses", Key: "prov-template-parse:" + t.name, Input: baseSrc, Detail: "does not parse"})
@@ -177,7 +182,7 @@ func streamProv(o *Out, r *rand.Rand, n int, thorough bool) {
 				if skip {
 					continue
 				}
-				src := prelude + fmt.Sprintf(t.src, x)
+				src := prelude + fillTemplate(t.src, x)
 				// fresh channel / containers per run are provided by provValues()
 				res, ok := run(src)
 				if !ok {
@@ -212,4 +217,12 @@ func streamProv(o *Out, r *rand.Rand, n int, thorough bool) {
 			}
 		}
 	}
+}
+
+
+// fillTemplate puts the operand into every %s of the template (%% is a literal percent sign)
+func fillTemplate(t, x string) string {
+	t = strings.ReplaceAll(t, "%%", "\x00")
+	t = strings.ReplaceAll(t, "%s", x)
+	return strings.ReplaceAll(t, "\x00", "%")
 }
